@@ -72,7 +72,6 @@ func ruleZeroFromWire(c *Ctx, rule string) {
 	p := c.P
 	n := 0
 	for _, fn := range p.SrcFuncs("imapclient") {
-		var gf *mustResult
 		allInstrs(fn, func(i ssa.Instruction) {
 			call, ok := i.(ssa.CallInstruction)
 			if !ok {
@@ -100,63 +99,7 @@ func ruleZeroFromWire(c *Ctx, rule string) {
 				}
 			}
 			for _, num := range nums {
-				// does it come from the decoder? (a load of a local handed to a Decoder numeric method)
-				src := num
-				for {
-					if cv, ok := src.(*ssa.Convert); ok {
-						src = cv.X
-						continue
-					}
-					if ct, ok := src.(*ssa.ChangeType); ok {
-						src = ct.X
-						continue
-					}
-					break
-				}
-				ld, ok := src.(*ssa.UnOp)
-				if !ok || ld.Op != token.MUL {
-					continue
-				}
-				cell, ok := ld.X.(*ssa.Alloc)
-				if !ok {
-					continue
-				}
-				fromWire := false
-				for _, ref := range *cell.Referrers() {
-					if dc, ok := ref.(ssa.CallInstruction); ok && isDecoderMethodCall(dc) {
-						fromWire = true
-					}
-				}
-				if !fromWire {
-					continue
-				}
-				n++
-				if gf == nil {
-					gf = mustFlow(fn, facts{}, nil, func(f facts, b *ssa.BasicBlock, s int) facts {
-						var add []string
-						for _, a := range edgeAtoms(b, s) {
-							if a.Const == nil {
-								continue
-							}
-							if kk, ok := constInt(a.Const); ok && kk == 0 && (a.Op == token.NEQ || a.Op == token.GTR) {
-								v := a.V
-								if cv, ok := v.(*ssa.Convert); ok {
-									v = cv.X
-								}
-								if l2, ok := v.(*ssa.UnOp); ok {
-									if al, ok := l2.X.(*ssa.Alloc); ok {
-										add = append(add, "nonzero:"+al.Name())
-									}
-								}
-							}
-						}
-						return f.with(add...)
-					})
-				}
-				fs, _ := gf.at(i)
-				key := fmt.Sprintf("%s:AddNum(%s)#%d", fnKey(fn), cell.Comment, countKey(c, rule, fnKey(fn)+":AddNum(")+1)
-				c.check(fs.has("nonzero:"+cell.Name()), rule, key, i.Pos(), "dominated by a non-zero test of the number read from the wire",
-					"a number read from the server is added to the result set without a zero test: '* SEARCH 0' yields a set containing '*' (0 means '*'), and AllSeqNums()/AllUIDs() panic on it")
+				checkWireNum(c, rule, &n, fn, i, num, i.Pos(), 2)
 			}
 		})
 	}
@@ -374,4 +317,83 @@ func ruleEnumerationBoundary(c *Ctx, rule string) {
 	if n == 0 {
 		c.okTrivial(rule, "no `n <= bound; n++` loop over an unsigned variable with a dynamic bound", token.NoPos, "0 such loops in imapnum and imap")
 	}
+}
+
+// checkWireNum: num (used at instruction `at` of fn) is added to a result
+// set. If it is a load of a local cell filled by a Decoder method, it must be
+// dominated by a non-zero test; if it is a parameter of an unexported helper,
+// the obligation moves to the helper's call sites.
+func checkWireNum(c *Ctx, rule string, n *int, fn *ssa.Function, at ssa.Instruction, num ssa.Value, pos token.Pos, depth int) {
+	src := num
+	for {
+		if cv, ok := src.(*ssa.Convert); ok {
+			src = cv.X
+			continue
+		}
+		if ct, ok := src.(*ssa.ChangeType); ok {
+			src = ct.X
+			continue
+		}
+		break
+	}
+	if prm := paramOf(src); prm != nil && depth > 0 && prm.Parent() == fn {
+		if o, ok := fn.Object().(*types.Func); ok && o.Exported() {
+			return
+		}
+		idx := -1
+		for k, q := range fn.Params {
+			if q == prm {
+				idx = k
+			}
+		}
+		for _, site := range callSitesOf(c.P, fn) {
+			args := site.Common().Args
+			if idx >= 0 && idx < len(args) && site.Parent() != nil {
+				checkWireNum(c, rule, n, site.Parent(), site, args[idx], site.Pos(), depth-1)
+			}
+		}
+		return
+	}
+	ld, ok := src.(*ssa.UnOp)
+	if !ok || ld.Op != token.MUL {
+		return
+	}
+	cell, ok := ld.X.(*ssa.Alloc)
+	if !ok {
+		return
+	}
+	fromWire := false
+	for _, ref := range *cell.Referrers() {
+		if dc, ok := ref.(ssa.CallInstruction); ok && isDecoderMethodCall(dc) {
+			fromWire = true
+		}
+	}
+	if !fromWire {
+		return
+	}
+	*n++
+	gf := mustFlow(fn, facts{}, nil, func(f facts, b *ssa.BasicBlock, s int) facts {
+		var add []string
+		for _, a := range edgeAtoms(b, s) {
+			if a.Const == nil {
+				continue
+			}
+			if kk, ok := constInt(a.Const); ok && kk == 0 && (a.Op == token.NEQ || a.Op == token.GTR) {
+				v := a.V
+				if cv, ok := v.(*ssa.Convert); ok {
+					v = cv.X
+				}
+				if l2, ok := v.(*ssa.UnOp); ok {
+					if al, ok := l2.X.(*ssa.Alloc); ok {
+						add = append(add, "nonzero:"+al.Name())
+					}
+				}
+			}
+		}
+		return f.with(add...)
+	})
+	fs, _ := gf.at(at)
+	key := fmt.Sprintf("%s:AddNum(%s)#%d", fnKey(fn), cell.Comment, countKey(c, rule, fnKey(fn)+":AddNum(")+1)
+	c.check(fs.has("nonzero:"+cell.Name()), rule, key, pos, "dominated by a non-zero test of the number read from the wire",
+		"a number read from the server is added to the result set without a zero test: '* SEARCH 0' yields a set containing '*' (0 means '*'), and AllSeqNums()/AllUIDs() panic on it")
 }
